@@ -146,7 +146,7 @@ func c05Gen(tier string, seed int64) []fw.Case {
 	// writer: what they do while they wait must not leak into the header that is half written
 	for i := 0; i < tierPick(tier, 78, 780); i++ {
 		d := c05Desc{Seed: rng.U64(), Role: bothRoles[i%2], Params: wire.Params{}, Thr: 1 << 20, Closer: "header-straddles-write-buffer", Peer: "raw", Writers: 1, PerW: 1, Pingers: 2}
-		d.WriteMax = 1 + (i/2)%13          // bytes of the second frame's header that still fit into the buffer
+		d.WriteMax = 1 + (i/2)%13                  // bytes of the second frame's header that still fit into the buffer
 		d.PerW = []int{100, 1000, 70000}[(i/26)%3] // size of the second chunk: 7 bit, 16 bit, 64 bit length
 		dd := d
 		cases = append(cases, fw.Case{Name: fmt.Sprintf("%s/header-straddles-write-buffer/fit=%d/second=%d", d.Role, d.WriteMax, d.PerW), Desc: dd, Run: func(r *fw.R) { c05Straddle(r, dd) }})
